@@ -200,20 +200,21 @@ pub fn macro_checks(seed: u64, rounds: usize) -> (Vec<String>, u64) {
 // ---------------------------------------------------------------- C17: mirrored price paths
 /// Runs a momentum agent (single- or multi-asset) on an imposed mid-price path and on its mirror image
 /// about `level`, with the same seed; returns per step (buys, sells, volume) of the agent's orders.
-fn momentum_flow(path: &[i64], seed: u64, n: u16, params: &MomentumParams, market: bool) -> Vec<(u32, u32, u64)> {
+fn momentum_flow(path: &[i64], seed: u64, n: u16, params: &MomentumParams, market: bool, crossed: bool) -> Vec<(u32, u32, u64)> {
     let mut out = Vec::new();
     let mut rng = Xoroshiro128StarStar::seed_from_u64(seed);
     let p = || MomentumParams { tick_size: params.tick_size, p_cancel: params.p_cancel, trade_vol: params.trade_vol, decay: params.decay, demand: params.demand,
                                 scale: params.scale, order_ratio: params.order_ratio, price_dist_mu: params.price_dist_mu, price_dist_sigma: params.price_dist_sigma };
     let tick = params.tick_size as i64;
     if !market {
-        let mut env = Env::new(0, params.tick_size, 1_000_000, true);
+        let mut env = Env::new(0, params.tick_size, 1_000_000, !crossed);
         let mut agent = MomentumAgent::new(0, n, p());
         for &mid in path {
             let ids: Vec<usize> = env.get_orders().iter().filter(|o| u8::from(o.status) == 1).map(|o| o.order_id).collect();
             for i in ids { env.cancel_order(i); }
             env.step(&mut rng);   // old quotes out before the new ones go in (they could cross each other)
-            let hs = if mid % 2 == 0 { 4 } else { 3 };      // path is in half ticks: an odd value puts the mid-price between two grid points
+            let mut hs = if mid % 2 == 0 { 4 } else { 3 };      // path is in half ticks: an odd value puts the mid-price between two grid points
+            if crossed { hs = -(hs + 2 * ((out.len() as i64) % 3)); }   // trading is off: bid above ask, by a width that changes from step to step
             env.place_order(Side::Bid, 1_000_000, 999, Some((((mid - hs) / 2) * tick) as u32)).unwrap();
             env.place_order(Side::Ask, 1_000_000, 999, Some((((mid + hs) / 2) * tick) as u32)).unwrap();
             env.step(&mut rng);
@@ -225,13 +226,14 @@ fn momentum_flow(path: &[i64], seed: u64, n: u16, params: &MomentumParams, marke
             env.step(&mut rng);
         }
     } else {
-        let mut env = MarketEnv::<2>::new(0, [1, params.tick_size], 1_000_000, true);
+        let mut env = MarketEnv::<2>::new(0, [1, params.tick_size], 1_000_000, !crossed);
         let mut agent = MomentumMarketAgent::new(0, n, 1, p());
         for &mid in path {
             let ids: Vec<usize> = env.get_orders(1).iter().filter(|o| u8::from(o.status) == 1).map(|o| o.order_id).collect();
             for i in ids { env.cancel_order((1, i)); }
             env.step(&mut rng);
-            let hs = if mid % 2 == 0 { 4 } else { 3 };
+            let mut hs = if mid % 2 == 0 { 4 } else { 3 };
+            if crossed { hs = -(hs + 2 * ((out.len() as i64) % 3)); }
             env.place_order(1, Side::Bid, 1_000_000, 999, Some((((mid - hs) / 2) * tick) as u32)).unwrap();
             env.place_order(1, Side::Ask, 1_000_000, 999, Some((((mid + hs) / 2) * tick) as u32)).unwrap();
             env.step(&mut rng);
@@ -257,19 +259,21 @@ pub fn momentum_mirror(base: u64, count: u64) -> (Vec<String>, String) {
         let params = MomentumParams { tick_size: 1 + g.below(4) as u32, p_cancel: 0.0, trade_vol: 1 + g.below(9) as u32,
             decay: *g.pick(&[0.3f64, 0.5, 1.0]), demand: if saturated { 1000.0 * n as f64 } else { *g.pick(&[0.5f64, 1.0, 2.0]) }, scale: *g.pick(&[0.5f64, 1.0]),
             order_ratio: *g.pick(&[1.0f64, 2.0]), price_dist_mu: 0.0, price_dist_sigma: 0.5 };
-        let level = 400i64;      // half ticks
+        // half ticks; every fourth pair runs at a price level beyond 2^25 (not representable in single precision)
+        let level = if g.chance(1, 4) { (1i64 << 27) + 2 * g.below(1000) as i64 + 1 } else { 400i64 };
+        let crossed = g.chance(1, 5);   // trading disabled and the harness quotes crossed
         let len = 3 + g.below(8) as usize;
         let mut path = vec![level];
         let shape = g.below(4);
-        for s in 1..len { let d = match shape { 0 => *g.pick(&[1i64, 2, 4]), 1 => -*g.pick(&[1i64, 2, 4]), 2 => *g.pick(&[3i64, -3, 0, 1, -1, 6, -6]), _ => if s % 3 == 0 { *g.pick(&[1i64, 8]) } else { 0 } }; let l = *path.last().unwrap(); path.push((l + d).clamp(300, 500)); }
+        for s in 1..len { let d = match shape { 0 => *g.pick(&[1i64, 2, 4]), 1 => -*g.pick(&[1i64, 2, 4]), 2 => *g.pick(&[3i64, -3, 0, 1, -1, 6, -6]), _ => if s % 3 == 0 { *g.pick(&[1i64, 8]) } else { 0 } }; let l = *path.last().unwrap(); path.push((l + d).clamp(level - 100, level + 100)); }
         let mirror: Vec<i64> = path.iter().map(|p| 2 * level - p).collect();
         let seed = g.next();
         let market = g.chance(1, 3);
-        let a = momentum_flow(&path, seed, n, &params, market);
-        let b = momentum_flow(&mirror, seed, n, &params, market);
+        let a = momentum_flow(&path, seed, n, &params, market, crossed);
+        let b = momentum_flow(&mirror, seed, n, &params, market, crossed);
         pairs += 1;
         if sample.is_empty() { sample = format!("path {:?} n={} demand={} decay={} ratio={} -> flow (buys,sells,vol) {:?}, mirrored {:?}", path, n, params.demand, params.decay, params.order_ratio, a, b); }
-        let desc = format!("pair {} (seed {}, {} traders, {}, decay {}, scale {}, demand {}, order ratio {}, path {:?})", i, seed, n, if market { "multi-asset" } else { "single-asset" }, params.decay, params.scale, params.demand, params.order_ratio, path);
+        let desc = format!("pair {} (seed {}, {} traders, {}{}, decay {}, scale {}, demand {}, order ratio {}, path {:?})", i, seed, n, if market { "multi-asset" } else { "single-asset" }, if crossed { ", trading disabled and quotes crossed" } else { "" }, params.decay, params.scale, params.demand, params.order_ratio, path);
         for (k, (x, y)) in a.iter().zip(b.iter()).enumerate() {
             if (x.0, x.1, x.2) != (y.1, y.0, y.2) {
                 fails.push(format!("mirroring the price path does not mirror the order flow at step {}: (buys, sells, volume) = {:?} but mirrored run gives {:?}; {}", k, x, y, desc));
